@@ -656,7 +656,7 @@ def scenario_crash_backup(seed, force=None):
     for _ in range(rnd.randrange(5, 11)):
         blocks.append(g.make_block(blocks))
     cont = rnd.choice(['new-branch', 'old-branch', 'forced-same-chain'])
-    cut = rnd.choice(['between-history-and-utxo', 'after-utxo'])
+    cut = rnd.choice(['between-history-and-utxo', 'after-utxo'] + [f'after-durable-event-{k}' for k in range(4)])
     if force:
         cut, cont = force
     desc = {'seed': seed, 'blocks': len(blocks), 'cut': cut, 'continuation': cont}
@@ -668,17 +668,27 @@ def scenario_crash_backup(seed, force=None):
         w.flush(True)
         db = w.db
         orig = db.flush_utxo_db
-
-        def flush_utxo_db(fd):
-            if cut == 'between-history-and-utxo':
+        restore = None
+        if cut.startswith('after-durable-event-'):
+            # die right after the k-th durable write of the rollback, whatever it is (a batch commit or a direct put of either
+            # database): a rollback split over several batches has more of these than the two of the unchanged code
+            restore = install_crash(w, cut, rnd)
+        else:
+            def flush_utxo_db(fd):
+                if cut == 'between-history-and-utxo':
+                    raise Crash(cut)
+                orig(fd)
                 raise Crash(cut)
-            orig(fd)
-            raise Crash(cut)
-        db.flush_utxo_db = flush_utxo_db
+            db.flush_utxo_db = flush_utxo_db
+        crashed = False
         try:
             w.backup(blocks[-1])
         except Crash:
-            pass
+            crashed = True
+        finally:
+            if restore:
+                restore()
+        desc['crashed'] = crashed
         w.close()
         try:
             state = w.open()
@@ -688,6 +698,13 @@ def scenario_crash_backup(seed, force=None):
         desc['height_after_restart'] = h
         if cut == 'between-history-and-utxo' and cont != 'new-branch':
             desc['class'] = 'KF-C05-1'
+        if cut.startswith('after-durable-event-') and crashed and cont != 'new-branch' and h == len(blocks) - 1:
+            # the listed finding is the cut AFTER THE COMPLETE history rollback and before the UTXO rollback; a cut that leaves
+            # the histories half rolled back is a different failure
+            want = oracle(blocks[:-1])['hist']
+            hxs = set(oracle(blocks)['hist'])
+            if all(list(w.db.history.get_txnums(hx, limit=None)) == want.get(hx, []) for hx in hxs):
+                desc['class'] = 'KF-C05-1'
         if cont == 'new-branch':
             final = blocks[:-1] + [g.make_block(blocks[:-1], salt=9)]
             final.append(g.make_block(final, salt=9))
